@@ -10,6 +10,9 @@ CHECKS = {
  "C18": dict(cat="exploration", tech="runtime monitoring: live-scanner gauge at a hook + goroutine census (runtime.Stack) after every parse return, goroutine count at end of each sequence",
    text="After every return of parse.SoyFile / Bundle.Compile / parse.Expr / soy.ParseGlobals in long in-process sequences over the hostile input families, the hook gauge of live scanner goroutines must be back to its previous value; a census showing a scanner blocked in chan send after the return is the refuting observation; the goroutine count at the end of each sequence must equal the baseline. Held on the sequences executed.",
    note="Gauge hook (build tag verif) cross-checked against the goroutine census every 256 calls; a still-runnable scanner is waited for, never judged by time.", ref="DESIGN.md §6 C18"),
+ "C02": dict(cat="exploration", tech="runtime monitoring: reference-model monitor (independent renderer over the harness's own syntax trees) comparing every Tofu.Render of generated bundles",
+   text="Seeded valid bundles from the whole command grammar are compiled and rendered by the real code; every output/error is compared with an independent reference renderer implementing the language's block scoping and call data passing. Held on the bundles and data executed.",
+   note="Trusted: the reference renderer and generator in /verif/harness (ref, gen); outputs compared modulo character-reference spelling; cases the language does not pin down are dropped and counted.", ref="DESIGN.md §6 C02, §5.2"),
 }
 PENDING = "check not built yet (planned with runtime monitoring, see DESIGN.md §6); not claimed"
 props = [json.loads(l)['id'] for l in open('/verif/properties.jsonl')]
